@@ -66,22 +66,23 @@ func T(s string) Tok { return ToAtoms(s) }
 func Ts(ss ...string) []Tok { return ToksOf(ss) }
 
 type NodeCfg struct {
-	Name     Tok   `json:"name"`
-	Parent   int   `json:"parent"` // 1-based index, 0 for the root
-	Um       int   `json:"um"`     // 0 fail 1 warn 2 pass (effective)
-	Ro       bool  `json:"ro"`
-	Unset    bool  `json:"unset"`
-	Fn       bool  `json:"fn"`
-	IsHelp   bool  `json:"ishelp"`
-	Sugg     []Tok `json:"sugg"`
-	Desc     Tok   `json:"desc"`
-	Args     []Tok `json:"args"`  // HelpSynopsisArg names
-	ArgsD    []Tok `json:"argsd"` // ... and their descriptions
-	DynFn    bool  `json:"dynfn"` // has a dynamic completion function (echoes DynOut)
-	DynOut   []Tok `json:"dynout"`
-	Sorted   []Tok `json:"sorted"`   // names and aliases visible at this level in Go's string order (ordering oracle)
-	OptOrder []int `json:"optorder"` // options visible at this level, ordered by primary name
-	CmdOrder []int `json:"cmdorder"` // child commands ordered by name
+	Name     Tok      `json:"name"`
+	Parent   int      `json:"parent"` // 1-based index, 0 for the root
+	Um       int      `json:"um"`     // 0 fail 1 warn 2 pass (effective)
+	Ro       bool     `json:"ro"`
+	Unset    bool     `json:"unset"`
+	Fn       bool     `json:"fn"`
+	IsHelp   bool     `json:"ishelp"`
+	Sugg     []Tok    `json:"sugg"`
+	Desc     Tok      `json:"desc"`
+	Args     []Tok    `json:"args"`  // HelpSynopsisArg names
+	ArgsD    []Tok    `json:"argsd"` // ... and their descriptions
+	DynFn    bool     `json:"dynfn"` // has a dynamic completion function (echoes DynOut)
+	DynOut   []Tok    `json:"dynout"`
+	ReqArgs  []string `json:"reqargs"`  // the command function fetches its arguments with GetRequiredArg ("s"), ...Int ("i"), ...Float64 ("f")
+	Sorted   []Tok    `json:"sorted"`   // names and aliases visible at this level in Go's string order (ordering oracle)
+	OptOrder []int    `json:"optorder"` // options visible at this level, ordered by primary name
+	CmdOrder []int    `json:"cmdorder"` // child commands ordered by name
 }
 
 type OptCfg struct {
@@ -100,6 +101,7 @@ type OptCfg struct {
 	Env       Tok    `json:"env"`
 	Valid     []Tok  `json:"valid"`
 	Sugg      []Tok  `json:"sugg"`
+	SuggFn    []Tok  `json:"suggfn"` // results of a dynamic value-completion function (none: no function)
 	SetCalled bool   `json:"setcalled"`
 	IsHelpOpt bool   `json:"ishelpopt"`
 	Desc      Tok    `json:"desc"`
@@ -149,12 +151,22 @@ type ErrRes struct {
 	Msg       Tok    `json:"msg"`
 }
 
+// ReqRes - outcome of one GetRequiredArg* call made by the command function.
+type ReqRes struct {
+	Ek   string `json:"ek"`   // "" | missing | conv | other
+	Val  Tok    `json:"val"`  // the argument handed out (string form) / canonical number
+	Msg  Tok    `json:"msg"`  // missing: first line written to Writer; conv: error text
+	Syn  bool   `json:"syn"`  // missing: the synopsis section followed on Writer
+	Left int    `json:"left"` // number of arguments left afterwards
+}
+
 type RanRes struct {
-	Node   int   `json:"node"`
-	Args   []Tok `json:"args"`
-	ArgNil bool  `json:"argnil"`
-	CtxOK  bool  `json:"ctxok"`
-	ViewOK bool  `json:"viewok"`
+	Node   int      `json:"node"`
+	Args   []Tok    `json:"args"`
+	ArgNil bool     `json:"argnil"`
+	CtxOK  bool     `json:"ctxok"`
+	ViewOK bool     `json:"viewok"`
+	Req    []ReqRes `json:"req"`
 }
 
 type Res struct {
@@ -250,6 +262,9 @@ func (c *Cfg) Normalize() {
 		if n.DynOut == nil {
 			n.DynOut = []Tok{}
 		}
+		if n.ReqArgs == nil {
+			n.ReqArgs = []string{}
+		}
 	}
 	for i := range c.Nodes {
 		keys := []string{}
@@ -288,6 +303,9 @@ func (c *Cfg) Normalize() {
 		}
 		if o.Sugg == nil {
 			o.Sugg = []Tok{}
+		}
+		if o.SuggFn == nil {
+			o.SuggFn = []Tok{}
 		}
 		if o.Desc == nil {
 			o.Desc = Tok{}
